@@ -967,3 +967,19 @@ func blocksOfSelectCase(sel *ssa.Select, idx int) []*ssa.BasicBlock {
 	// a select with a single case and no default has no dispatch If: the body follows directly
 	return out
 }
+
+// unwrapConv strips interface/type conversions that do not change the value.
+func unwrapConv(v ssa.Value) ssa.Value {
+	for {
+		switch x := v.(type) {
+		case *ssa.ChangeInterface:
+			v = x.X
+		case *ssa.MakeInterface:
+			v = x.X
+		case *ssa.ChangeType:
+			v = x.X
+		default:
+			return v
+		}
+	}
+}
